@@ -195,7 +195,9 @@ Definition cmon_event (w sl : N) (listen : bool) (m : cmon) (e : cevent) : cres 
       then CErr 1                                       (* produced after Terminate returned *)
       else match oblig m with
            | Some (from, D) =>
-               if N.ltb g from                          (* received before the strobe: not its signal *)
+               if N.ltb (g + sl) (from + w)             (* received before the strobe's timer can have
+                                                           fired: an older signal, the strobe's own
+                                                           signal is still owed *)
                then COk (mkCM (poss m) (S (sigs m)) (lastc m) (oblig m) (tcall m) (tret m))
                else if listen && N.ltb D g then CErr 2  (* the signal came too late *)
                else COk (mkCM (poss m) (S (sigs m)) (lastc m) None (tcall m) (tret m))
